@@ -4,6 +4,9 @@
                                             depends on Go's map iteration order
      fmt.strip   args: raw text          -> hex(StripRaw(text))
      fmt.tables  no args                 -> the two tables, sorted by name
+     fmt.concurrent  args: raw texts     -> hex(Fmt(t1)),hex(Fmt(t2)),...  (the Go side also runs
+                                            them concurrently in a fresh process; the model is the
+                                            sequential reference)
    A piece argument is a tag byte and a payload: 'T' name, 'P' fg,bg (cut at the first comma),
    anything else (normally 'L') literal text; the empty argument is the empty literal. *)
 Require Import Bytes Format FmtSpec.
@@ -39,6 +42,8 @@ Definition run_C20 (suite : str) (args : list str) : option str :=
     Some (if trim_stable t then hex (trim_fmt trim_names t) else lbl_unstable)
   else if streqb suite (bs "fmt.strip") then
     Some (hex (strip_raw (nth 0 args [])))
+  else if streqb suite (bs "fmt.concurrent") then
+    Some (hexlist (List.map fmt args))
   else if streqb suite (bs "fmt.tables") then
     Some (lbl_colors ++ show_colors ++ lbl_codes ++ show_codes)
   else None.
